@@ -45,16 +45,18 @@ CogShock == {"Cog19", "Cog20", "Cog21"}
 
 RiemannFams == {"RiemannIG", "RiemannGen"}
 (* families without a 1-D hydrodynamic scan row (burn times, heat conduction, elasticity): relation / field laws only *)
-PlainFams == {"Sedov", "EHEP", "Mader", "EPpiston", "Kenamond1", "Kenamond2", "Kenamond3", "DSDcyl", "Blake", "Rod1D", "Hutchens1"}
-Families == {"Noh", "Noh2", "Noh2Cog"} \cup RiemannFams \cup PlainFams \cup CogNone \cup CogDiv \cup CogFull \cup CogShock
+PlainFams == {"EHEP", "Mader", "EPpiston", "Kenamond1", "Kenamond2", "Kenamond3", "DSDcyl", "Blake", "Rod1D", "Hutchens1"}
+G_Sedov == {<<"interior", "shock", "ambient">>, <<"vacuum", "cont", "interior">>}
+Families == {"Noh", "Noh2", "Noh2Cog", "Sedov"} \cup RiemannFams \cup PlainFams \cup CogNone \cup CogDiv \cup CogFull \cup CogShock
 
 Cat == [f \in Families |->
   CASE f = "Noh"        -> Row("gamma", "euler",   "closed", {"post", "pre"}, G_PostPre, FALSE)
     [] f \in {"Noh2", "Noh2Cog"}
                         -> Row("gamma", "euler",   "closed", {"all"}, G_Smooth, FALSE)
+    [] f = "Sedov"      -> RowF("gamma", "euler", "sedov", {"vacuum", "interior", "ambient"}, G_Sedov, TRUE, {"ambient"})
     [] f = "RiemannIG"  -> RowF("gamma2", "euler", "closed", R_Riemann, G_Riemann, FALSE, {"R"})
     [] f = "RiemannGen" -> RowF("gamma2", "euler", "table",  R_Riemann, G_Riemann, FALSE, {"R"})
-    [] f \in PlainFams  -> Row("none",  "none",    IF f \in {"Sedov", "Mader"} THEN "table" ELSE IF f \in {"Rod1D", "Hutchens1"} THEN "series" ELSE "closed", {"all"}, G_Smooth, FALSE)
+    [] f \in PlainFams  -> Row("none",  "none",    IF f = "Mader" THEN "table" ELSE IF f \in {"Rod1D", "Hutchens1"} THEN "series" ELSE "closed", {"all"}, G_Smooth, FALSE)
     [] f \in CogNone    -> Row("cog",   "cognone", "closed", {"all"}, G_Smooth, FALSE)
     [] f \in CogDiv     -> Row("cog",   "cogdiv",  "closed", {"all"}, G_Smooth, FALSE)
     [] f \in CogFull    -> Row("cog",   "cogfull", "closed", {"all"}, G_Smooth, FALSE)
